@@ -76,6 +76,8 @@ class Ctx(object):
         self._facts = {}
         self.extra = {}
         self.aborted = None
+        from .rules import util as _u
+        _u.set_current_program(prog)
 
     def rule(self, rid, title, min_instances=1, engine=""):
         r = Rule(self, "%s.%s" % (self.prop_id, rid), title, min_instances, engine)
